@@ -415,6 +415,9 @@ def universe(ctx, n_rand, level, depth=2, big=True):
             continue
         types.append(t)
         i += 1
+    # option-set variants are built for a PREFIX of the list (spec["frac"]) and quick tiers sub-sample it: a fixed shuffle makes every prefix and
+    # every stride a fair sample of all shapes (independent of the seed, so the enumerated part of the universe is the same for every seed)
+    __import__("random").Random(20260926).shuffle(types)
     return types
 
 
